@@ -93,10 +93,23 @@ def mser_common(ctx, module, theorems):
         for (pi, ci), l, m in zip(into_index, into_lines, into_model + [''] * (len(into_lines) - len(into_model))):
             progs[pi]['cases'][ci]['fx']['model'] = m
             progs[pi]['cases'][ci]['fx']['line'] = l
+    # a type kind the tree newly accepts (single-pass ranges are rejected at compile time by the pinned tree): if accepted, the
+    # size reported and the bytes written must be the documented encoding of {1, 2, 3}
+    probes = [l for pr in progs for l in (pr.get('err') or '').split('\n') if l.startswith('PROBE input-range=')]
+    accepted = [l for l in probes if 'accepted' in l]
+    if accepted and ctx.pid in ('C04', 'C05'):
+        kv = parse_kv(accepted[0])
+        want = '03000000010000000200000003000000'
+        if kv.get('bytes') != want or kv.get('size') != '16':
+            ctx.pre_fail = True
+            ctx.violation('c04-input-range', '%s: a single-pass range (std::istream_iterator) is accepted as a loggable sequence, but serialized_size '
+                          'reports %s bytes and serialize writes %s (documented encoding of {1,2,3}: 16 bytes %s)' % (ctx.pid, kv.get('size'), kv.get('bytes'), want),
+                          {'kind': 'program', 'probe': accepted[0], 'how': 'vr::InputRange in harness/mser_report.hpp, run at the start of every generated program'})
     stats = {}
     for pr in progs:
         for k, v in pr['stats'].items():
             stats[k] = stats.get(k, 0) + v
+    stats['input_range_probe'] = 'accepted' if accepted else ('rejected' if probes else 'not reported')
     ctx.streams['mser'] = {'programs': len(progs), 'cases': len(lines), 'model_rc': rc, 'dispatch_counts': stats}
     if workdir:
         subprocess.run(['rm', '-rf', workdir])
